@@ -65,6 +65,15 @@ META["C12"] = dict(
           "yield points and validating the observed events with TLC."),
     note="trusted: the scheduler's goroutine-dump based deadlock confirmation; bbolt file locking; single shard directory")
 
+META["C07"] = dict(
+    technique="TLA+ pipeline/transaction spec (WriteTxn.tla) model-checked; fault and kill-point enumeration on the real shard through a storage proxy, traces validated by TLC against Shard.tla (Fork / Fault / Crash / Restore)",
+    design_ref="DESIGN.md 5 C07",
+    text=("Every sampled (thorough: every) fallible storage operation of every batch is made to fail, the commit is refused, and the "
+          "process is killed at operation k / before / after commit; warm and reopened answers are validated by TLC as all-or-nothing "
+          "against the reference model. The design of the stage / transaction protocol is model-checked, including the pinned "
+          "early-return defect as a negative configuration."),
+    note="trusted: bbolt's own commit atomicity; Bucket.Get cannot be made to fail (interface has no error); op numbering under concurrency is schedule dependent")
+
 NOT_APPLICABLE = {}
 
 
